@@ -37,6 +37,7 @@ struct Frame {
     std::string name;      // api name or callback kind
     int slot = -1;         // target module slot (api) / module whose callback runs
     int cb = -1;
+    int actor = -1;        // api frames: the module on whose behalf the call is made when it is not the target (sender of a pill)
     uint64_t gseq = 0;
     int nested = 0;        // number of callback frames opened inside (for api frames)
     int script_ops = 0;    // number of scripted operations executed inside (0: callbacks, if any, did nothing)
@@ -167,6 +168,7 @@ struct Slot {
     bool pill_overflowed = false;
     uint64_t batch_changed_gseq = 0, last_delivery_gseq = 0;
     uint64_t tb_set_gseq = 0;            // event number at which the current token bucket was set
+    uint64_t tb_charged_max = 0;         // upper bound on the tokens used since then (every rate-limited call that may have been charged)
     uint64_t batch_timer_armed_at = 0;   // simulated time at which the batch time-out timer was last (re)armed; 0 = unknown
     bool batch_timer_exact = false;      // ... and that time is exact (seam cost 0)
     uint64_t tb_refused_gseq = 0;
